@@ -46,39 +46,40 @@ Print Assumptions C18_only_registered_beneficiaries.
 (* over every history of messages, passed proposals, end blocks and plain transfers: whenever the
    module account ends up with less of a token than it started with, the history contains an accepted
    claim or passed distribution / withdraw proposal *)
-Theorem C18_pool_funds_leave_only_by_claim_or_passed_proposal : forall actors U h s d,
+Theorem C18_pool_funds_leave_only_by_claim_or_passed_proposal : forall dynguard actors U h s d,
   Forall (fun e => op_wf (snd e)) h ->
-  s_bank (sp_run actors U s h) MODULE d < s_bank s MODULE d ->
-  exists e, In e h /\ is_payout (snd e) = true /\ exists s0, is_ok (sp_apply actors U (fst e) (snd e) s0) = true.
+  s_bank (sp_run dynguard actors U s h) MODULE d < s_bank s MODULE d ->
+  exists e, In e h /\ is_payout (snd e) = true /\ exists s0, is_ok (sp_apply dynguard actors U (fst e) (snd e) s0) = true.
 Proof. exact pool_funds_leave_only_by_claim_or_passed_proposal. Qed.
 Print Assumptions C18_pool_funds_leave_only_by_claim_or_passed_proposal.
 
-Theorem C18_one_step_outflow_needs_payout_op : forall actors U now o s s' d, sp_apply actors U now o s = Ok s' -> op_wf o ->
+Theorem C18_one_step_outflow_needs_payout_op : forall dynguard actors U now o s s' d, sp_apply dynguard actors U now o s = Ok s' -> op_wf o ->
   s_bank s' MODULE d < s_bank s MODULE d -> is_payout o = true.
 Proof. exact module_outflow_needs_payout_op. Qed.
 Print Assumptions C18_one_step_outflow_needs_payout_op.
 
 (* over every history the pools' recorded balances never exceed what the module account holds *)
-Theorem C18_books_le_module_balance : forall actors U h s,
-  Forall (fun e => op_wf (snd e)) h -> books_inv s -> books_inv (sp_run actors U s h).
+Theorem C18_books_le_module_balance : forall dynguard actors U h s,
+  Forall (fun e => op_wf (snd e)) h -> books_inv s -> books_inv (sp_run dynguard actors U s h).
 Proof. exact books_le_module. Qed.
 Print Assumptions C18_books_le_module_balance.
 
 (* ---------------------------------------------------------------- ubi *)
 (* every distribution passed the period gate, pays the record's amount and stamps the record *)
-Theorem C18_ubi_paid_only_when_due : forall now s s' paid id x,
-  NoDup (map fst (us_recs s)) -> ubi_endblock now s = Ok (s', paid) -> In (id, x) paid ->
-  exists r, In (id, r) (us_recs s) /\ ubi_due now r = true /\ 0 <= x /\ (u_dyn r = false -> x = ubi_amount r)
+Theorem C18_ubi_paid_only_when_due : forall gate now s s' paid id x,
+  NoDup (map fst (us_recs s)) -> ubi_endblock gate now s = Ok (s', paid) -> In (id, x) paid ->
+  exists r, In (id, r) (us_recs s) /\ ubi_due gate now r = true /\ 0 <= x /\ (u_dyn r = false -> x = ubi_amount r)
             /\ uget id (us_recs s') = Some (touch now r) /\ NoDup (map fst (us_recs s')).
 Proof. exact ubi_paid_only_when_due. Qed.
 Print Assumptions C18_ubi_paid_only_when_due.
 
-(* at most once per period -- FULL statement refuted by uint64 wrap-around (Period = 2^64-1) ... *)
+(* at most once per period -- on the unrepaired gate (probe: gate_exact = false) the FULL statement is
+   refuted by uint64 wrap-around (Period = 2^64-1) ... *)
 Theorem C18_ubi_once_per_period_refuted :
   exists t1 t2 s s1 s2 p1 p2 id x1 x2 r,
     NoDup (map fst (us_recs s)) /\
-    ubi_endblock t1 s = Ok (s1, p1) /\ In (id, x1) p1 /\
-    ubi_endblock t2 s1 = Ok (s2, p2) /\ In (id, x2) p2 /\
+    ubi_endblock false t1 s = Ok (s1, p1) /\ In (id, x1) p1 /\
+    ubi_endblock false t2 s1 = Ok (s2, p2) /\ In (id, x2) p2 /\
     In (id, r) (us_recs s) /\ 0 <= t1 /\ 0 <= u_period r /\ ~ (t1 + u_period r < t2).
 Proof. exact ubi_once_per_period_refuted. Qed.
 Print Assumptions C18_ubi_once_per_period_refuted.
@@ -86,12 +87,21 @@ Print Assumptions C18_ubi_once_per_period_refuted.
 (* ... and true whenever last+period stays below 2^64 *)
 Theorem C18_ubi_once_per_period_guarded : forall t1 t2 s s1 s2 p1 p2 id x1 x2,
   NoDup (map fst (us_recs s)) ->
-  ubi_endblock t1 s = Ok (s1, p1) -> In (id, x1) p1 ->
-  ubi_endblock t2 s1 = Ok (s2, p2) -> In (id, x2) p2 ->
+  ubi_endblock false t1 s = Ok (s1, p1) -> In (id, x1) p1 ->
+  ubi_endblock false t2 s1 = Ok (s2, p2) -> In (id, x2) p2 ->
   exists r, In (id, r) (us_recs s) /\
             (0 <= t1 -> 0 <= u_period r -> t1 + u_period r < two64 -> t1 + u_period r < t2).
 Proof. exact ubi_once_per_period_guarded. Qed.
 Print Assumptions C18_ubi_once_per_period_guarded.
+
+(* ... and at full strength on the repaired gate `now >= last && now-last > period` (gate_exact = true) *)
+Theorem C18_ubi_once_per_period_repaired : forall t1 t2 s s1 s2 p1 p2 id x1 x2,
+  NoDup (map fst (us_recs s)) ->
+  ubi_endblock true t1 s = Ok (s1, p1) -> In (id, x1) p1 ->
+  ubi_endblock true t2 s1 = Ok (s2, p2) -> In (id, x2) p2 ->
+  exists r, In (id, r) (us_recs s) /\ (0 <= u_period r -> t1 + u_period r < t2).
+Proof. exact ubi_once_per_period_repaired. Qed.
+Print Assumptions C18_ubi_once_per_period_repaired.
 
 (* ---------------------------------------------------------------- collectives *)
 (* an accepted withdrawal happens after the lock, returns round((1-d)b)+round(d*b) of every bonded
@@ -128,18 +138,18 @@ Theorem C18_withdraw_after_lock_refuted :
 Proof. exact withdraw_after_lock_refuted. Qed.
 Print Assumptions C18_withdraw_after_lock_refuted.
 
-(* a passed remove proposal may pay part of a contributor's bonds and keep the record (the error of
-   ExecuteCollectiveRemove is discarded) *)
+(* on the unrepaired Apply (probe: remove_atomic = false) a passed remove proposal may pay part of a
+   contributor's bonds and keep the record (the error of ExecuteCollectiveRemove is discarded) *)
 Theorem C18_removal_partial_payout_refuted :
-  exists s s' a C', co_remove [0] 0 s = Ok s' /\ zget 0 (cs_colls s') = Some C' /\ zhas a (co_contribs C') = true /\
+  exists s s' a C', co_remove false [0] 0 s = Ok s' /\ zget 0 (cs_colls s') = Some C' /\ zhas a (co_contribs C') = true /\
     0 < cs_bank s' a 0 - cs_bank s a 0.
 Proof. exact removal_partial_payout_refuted. Qed.
 Print Assumptions C18_removal_partial_payout_refuted.
 
 (* donations: messages never touch the module account holding them; a passed send-donation
    proposal pays at most the recorded donation balance and reduces the record by the same amount *)
-Theorem C18_donations_leave_only_by_proposal : forall actors U now o s s',
-  co_apply actors U now o s = Ok s' -> co_user_op o -> cs_bank s' CMODULE = cs_bank s CMODULE.
+Theorem C18_donations_leave_only_by_proposal : forall ratomic actors U now o s s',
+  co_apply ratomic actors U now o s = Ok s' -> co_user_op o -> cs_bank s' CMODULE = cs_bank s CMODULE.
 Proof. exact donations_untouched_by_messages. Qed.
 Print Assumptions C18_donations_leave_only_by_proposal.
 
@@ -152,6 +162,42 @@ Theorem C18_send_donation_le_book : forall c to amt s s', co_send_donation c to 
 Proof. exact send_donation_le_book. Qed.
 Print Assumptions C18_send_donation_le_book.
 
+(* ---------------------------------------------------------------- round 2 *)
+(* over every history a (pool, account) claim record exists only if that account registered *)
+Theorem C18_claim_records_only_by_register : forall dynguard actors U h s k,
+  pget k (s_claims (sp_run dynguard actors U s h)) <> None ->
+  pget k (s_claims s) <> None \/ exists now a p, In (now, ORegister a p) h /\ k = (p, a).
+Proof. exact claim_records_only_by_register. Qed.
+Print Assumptions C18_claim_records_only_by_register.
+
+(* chk_sound for claims: what the model pays on a claim passes the spec checker's payment clauses
+   (over_entitlement, paid_unregistered, paid_non_beneficiary, over_book, negative_payment) whenever
+   the checker's ghost record agrees with the model state *)
+Theorem C18_model_claim_passes_checker : forall actors U S now p a s s' P,
+  sp_claim actors now p a s = Ok s' -> zget p (s_pools s) = Some P ->
+  zget p (ss_terms S) = Some (p_terms P) ->
+  (forall d, In d U -> fget p (ss_book S) d = p_bal P d) ->
+  pget (p, a) (ss_last S) = pget (p, a) (s_claims s) ->
+  NoDup (map fst (t_rates (p_terms P))) -> (forall e, In e (t_rates (p_terms P)) -> 0 <= snd e) ->
+  (forall w, In w (granted_weights actors (p_terms P) a) -> 0 <= w) ->
+  (forall d, 0 <= p_bal P d) -> a <> MODULE ->
+  check_payment actors U S now p a (csub (s_bank s' a) (s_bank s a)) = [].
+Proof. exact model_claim_passes_checker. Qed.
+Print Assumptions C18_model_claim_passes_checker.
+
+(* over every history of messages, proposals (send donation, remove in either variant) and seeded
+   donations: each contributor's bond record equals the ghost sum -- set by create, increased by
+   contribute, cleared by withdraw and for every record a removal deleted *)
+Theorem C18_bonds_are_sum_of_contributions : forall ratomic actors U h sg,
+  bonds_inv sg -> bonds_inv (gs_run ratomic actors U sg h).
+Proof. exact bonds_are_sum_of_contributions. Qed.
+Print Assumptions C18_bonds_are_sum_of_contributions.
+
+(* with the error returned by Apply (repaired variant) a removal is all or nothing *)
+Theorem C18_removal_all_or_nothing : forall U c s s', co_remove true U c s = Ok s' -> cs_colls s' = zdel c (cs_colls s).
+Proof. exact removal_all_or_nothing. Qed.
+Print Assumptions C18_removal_all_or_nothing.
+
 (* ---------------------------------------------------------------- non-vacuity *)
 Definition ex_terms : terms := mkTerms 100 0 1000 [(1, 2500000000000000000)] [] [(7, 500000000000000000)] false 0.
 Definition ex_state : sstate :=
@@ -162,7 +208,7 @@ Example C18_nonvacuous_claim :
     (s_bank s' 7 1 =? 50) && on_some (zget 0 (s_pools s')) (fun P => p_bal P 1 =? 950)) = true.
 Proof. vm_compute. reflexivity. Qed.
 Example C18_nonvacuous_ubi :
-  on_ok (ubi_endblock 1000 (mkUS [(1, mkU 0 0 900 2 60 1 false)] [(1, 5)] 0)) (fun r => us_minted (fst r) =? 2000000) = true.
+  on_ok (ubi_endblock false 1000 (mkUS [(1, mkU 0 0 900 2 60 1 false)] [(1, 5)] 0)) (fun r => us_minted (fst r) =? 2000000) = true.
 Proof. vm_compute. reflexivity. Qed.
 Example C18_nonvacuous_withdraw :
   on_ok (co_withdraw [0] 100 1 0 s_exact) (fun s' => cs_bank s' 1 0 - cs_bank s_exact 1 0 =? 4) = true.
